@@ -25,6 +25,26 @@ def main():
             esc = lambda t: str(t).replace("|", "\\|").replace("\n", " ")
             rows.append("| `seeded/%s/` | %s | %s | %s | %s |" % (os.path.basename(os.path.dirname(mf)), m.get("property"), esc(m.get("change")), esc(m.get("needs_to_manifest")), esc(res)))
         txt = txt.replace("SEEDED_TABLE_PLACEHOLDER", "\n".join(rows))
+        # table of checks from manifest.d + evidence
+        crow = ["| id | category | pinned theorems (discharged) | technique (MANIFEST) | last committed run |", "|---|---|---|---|---|"]
+        for mf in sorted(glob.glob(os.path.join(HERE, "manifest.d", "C*.json"))):
+            m = json.load(open(mf))
+            pid = m["property_id"]
+            try:
+                e = json.load(open(os.path.join(HERE, "evidence", pid + ".json")))
+            except Exception:
+                e = {}
+            c = e.get("coverage", {})
+            crow.append("| %s | %s | %s (%s) | %s | %s tier, %s evaluations, %s s |" % (pid, m["level_claimed"]["category"], c.get("obligations", "?"), c.get("discharged", "?"),
+                        esc(m.get("technique", "")), e.get("tier", "?"), c.get("evaluations", "?"), int(e.get("wall_s", 0))))
+        txt = txt.replace("CHECK_TABLE_PLACEHOLDER", "\n".join(crow))
+        nlines = 0
+        for root, _, files in os.walk(os.path.join(HERE, "coq")):
+            for f in files:
+                if f.endswith(".v") and "/Gen" not in root and "/work" not in root:
+                    nlines += sum(1 for _ in open(os.path.join(root, f), errors="replace"))
+        txt = txt.replace("COQ_LINES_PLACEHOLDER", "about %d k" % round(nlines / 1000))
+        txt = txt.replace("HARNESS_BINS_PLACEHOLDER", str(len([f for f in os.listdir(os.path.join(HERE, "harness", "src", "bin")) if f.endswith(".rs")])))
         out.append(txt)
     # known findings / fixed tables
     kf = json.load(open(os.path.join(HERE, "known_findings.json")))
